@@ -113,7 +113,7 @@ Sticky(run) == \A j, k \in 1..Len(run) : (j < k /\ run[j].post \in Clients) => r
 -------------------------------------------------------------------------------
 (* C30.  caller: the client the hostname is bound to | another client | nobody (hostname unbound)
    hash: the request's algorithm field: 0 = unset, 1..3 = SHA-256/384/512, 9 = undefined value;  dlen: digest length *)
-Callers == {"bound", "other", "unbound"}
+Callers == {"bound", "other", "unbound", "twin"}      \* twin: a certificate with the bound client's token but another client id
 Hashes  == {0, 1, 2, 3, 9}
 DLens   == {0, 20, 32, 48, 64, 65}
 HashSize(a) == CASE a = 1 -> 32 [] a = 2 -> 48 [] a = 3 -> 64 [] OTHER -> -1
@@ -122,7 +122,7 @@ KeylessCases == [caller : Callers, proof : KProofs, method : {"get"}, hash : {0}
                 \cup [caller : Callers, proof : KProofs, method : {"sign"}, hash : Hashes, dlen : DLens]
 KeylessImpl(x) ==
   IF x.proof # "valid" THEN FALSE                  \* checkAcme: proof first
-  ELSE IF x.caller = "other" THEN FALSE            \* checkAcme: bundle of another client
+  ELSE IF x.caller \in {"other", "twin"} THEN FALSE  \* checkAcme: bundle of another client (token, client id and address are compared)
   ELSE IF x.caller = "unbound" THEN FALSE          \* getCertificate: !found
   ELSE IF x.method = "get" THEN TRUE
   ELSE IF x.hash \notin {1, 2, 3} THEN FALSE
